@@ -141,7 +141,14 @@ pub struct PrefixCase {
 
 pub fn decode_prefix(src: &mut Source) -> Box<dyn Case> {
     let lang = gen_lang(src);
-    let mut word = match src.weighted(&[5, 2, 2]) {
+    let mut word = match src.weighted(&[50, 20, 20, 1]) {
+        3 => {
+            // a very long single word (compound nouns, product codes): 50-110 letters
+            let plain = plain_letters(lang);
+            let n = src.range(50, 110);
+            let k = src.range(3, 12);
+            (0..n).map(|_| plain[src.below(k)]).collect()
+        }
         0 => gen_random_word(src, lang, true),
         1 => format!("{}'{}", gen_random_word(src, lang, true), gen_random_word(src, lang, false)),
         _ => gen_word(src, lang, Flavor::Clean),
@@ -198,11 +205,14 @@ impl Case for PrefixCase {
                 let tq = tokenize_query(q, &l);
                 let typed: &[char] = if tq.words.len() == 1 { &tq.chars[tq.words[0].slice.0..tq.words[0].slice.1] } else { &[] };
                 let wchars = &t.chars[wd.slice.0..wd.slice.1];
-                if typed.len() < p || typed.len() > p + 1 || !wchars.starts_with(typed) {
+                let odd = typed.len() < p || typed.len() > p + 1 || !wchars.starts_with(typed);
+                if odd && retyping_may_differ(&[&wchars[..p]], q) {
                     ctx.count("skipped_not_a_normalised_prefix", 1);
                     continue;
                 }
-                let pp = typed.len();
+                // (if the typed text does not tokenise to the prefix although nothing in it could
+                // explain that, the probe is made anyway and judged against the prefix itself)
+                let pp = if odd { p } else { typed.len() };
                 let exp = if pp == p { exp.clone() } else { format!("{}<<{}>>{}", nz(&t.source[..wd.slice.0]), nz(&t.source[wd.slice.0..wd.slice.0 + pp]), nz(&t.source[wd.slice.0 + pp..])) };
                 let hits = search(&store, q);
                 ctx.count("prefix_probes", 1);
@@ -218,6 +228,7 @@ impl Case for PrefixCase {
             }
         }
         ctx.label_if(t.source.contains(&'\0'), "padded-word");
+        ctx.label_if(wd.slice.1 - wd.slice.0 > 64, "word>64");
         ctx.label_if(self.title.contains('\''), "inner-or-edge-apostrophe");
         Ok(())
     }
